@@ -630,6 +630,8 @@ func buildReplayTest(P *Program, e *Exec, fn *ssa.Function, ob *Obligation, rf *
 		pred = "differential"
 	case ob.Kind == "variant" || ob.Kind == "unwind":
 		pred = "hang"
+	case ob.Kind == "lemma":
+		pred = "lemma"
 	case ob.Kind == "post":
 		for i, en := range ct.Ensures {
 			lab := en.Label
@@ -664,7 +666,13 @@ func buildReplayTest(P *Program, e *Exec, fn *ssa.Function, ob *Obligation, rf *
 	}
 	sb.WriteString(")\n\n")
 	fmt.Fprintf(&sb, "// generated by kvc from the solver model of obligation %s\n", ob.Name)
+	if pred == "lemma" {
+		sb.WriteString("var kvcLemmaFailed bool\n\n")
+	}
 	fmt.Fprintf(&sb, "func kvcRun(fill byte) (out string, panicked interface{}) {\n")
+	if pred == "lemma" {
+		sb.WriteString("\tkvcLemmaFailed = false\n\tverifFailed = func() { kvcLemmaFailed = true }\n")
+	}
 	sb.WriteString("\tdefer func() { if r := recover(); r != nil { panicked = r } }()\n")
 	for _, s := range g.pre {
 		for _, l := range strings.Split(strings.TrimSpace(s), "\n") {
@@ -707,6 +715,9 @@ func buildReplayTest(P *Program, e *Exec, fn *ssa.Function, ob *Obligation, rf *
 	if pred == "post" {
 		fmt.Fprintf(&sb, "\tif !(%s) {\n\t\tout = \"POSTFAIL \" + out\n\t}\n", predNote)
 	}
+	if pred == "lemma" {
+		sb.WriteString("\tif kvcLemmaFailed {\n\t\tout = \"POSTFAIL lemma assertion false \" + out\n\t}\n")
+	}
 	sb.WriteString("\treturn\n}\n\n")
 	fmt.Fprintf(&sb, "func %s(t *testing.T) {\n", testName)
 	switch pred {
@@ -716,7 +727,7 @@ func buildReplayTest(P *Program, e *Exec, fn *ssa.Function, ob *Obligation, rf *
 		sb.WriteString("\to1, p1 := kvcRun(0x00)\n\to2, p2 := kvcRun(0xFF)\n\tif p1 != nil || p2 != nil {\n\t\tfmt.Println(\"KVC-REPLAY: confirmed panic:\", p1, p2)\n\t} else if o1 != o2 {\n\t\tfmt.Println(\"KVC-REPLAY: confirmed result depends on bytes beyond len(data):\", o1, \"vs\", o2)\n\t} else {\n\t\tfmt.Println(\"KVC-REPLAY: not-reproduced identical results\", o1)\n\t}\n")
 	case "hang":
 		sb.WriteString("\tdone := make(chan struct{})\n\tgo func() { kvcRun(0xAA); close(done) }()\n\tselect {\n\tcase <-done:\n\t\tfmt.Println(\"KVC-REPLAY: not-reproduced terminated\")\n\tcase <-time.After(3 * time.Second):\n\t\tfmt.Println(\"KVC-REPLAY: confirmed no termination within 3s\")\n\t}\n")
-	case "post":
+	case "post", "lemma":
 		sb.WriteString("\to, p := kvcRun(0xAA)\n\tif p != nil {\n\t\tfmt.Println(\"KVC-REPLAY: confirmed panic:\", p)\n\t} else if len(o) >= 8 && o[:8] == \"POSTFAIL\" {\n\t\tfmt.Println(\"KVC-REPLAY: confirmed postcondition false:\", o)\n\t} else {\n\t\tfmt.Println(\"KVC-REPLAY: not-reproduced postcondition holds\", o)\n\t}\n")
 	}
 	sb.WriteString("}\n")
@@ -734,7 +745,7 @@ func runReplayTest(repo string, rf *replayFile) {
 	os.WriteFile(ovFile, ov, 0o644)
 	ctx, cancel := context.WithTimeout(context.Background(), 120*time.Second)
 	defer cancel()
-	cmd := exec.CommandContext(ctx, "go", "test", "-overlay", ovFile, "-vet=off", "-count=1", "-timeout", "60s", "-v",
+	cmd := exec.CommandContext(ctx, "go", "test", "-tags", "verif", "-overlay", ovFile, "-vet=off", "-count=1", "-timeout", "60s", "-v",
 		"-run", "^"+rf.TestName+"$", "./"+rf.PkgDir)
 	cmd.Dir = repo
 	cmd.Env = append(os.Environ(), "GOFLAGS=-mod=mod", "GOPROXY=off", "GOSUMDB=off", "GOTOOLCHAIN=local")
